@@ -198,6 +198,8 @@ def obligations(tier):
              clause="base case of the match compilation: of the remaining (all matching) equations the first in source order supplies the result; the default only when none is left"),
         v("compiler", "compile_primitive::and", "`a && b`: a is compiled out of tail position, b inherits the tail position; code layout [a, CJump(L+3), False, Jump(end), b]: b runs only if a is True, otherwise the result is False", "vm/src/compiler.rs::compile_primitive (&& block)"),
         v("compiler", "compile_primitive::or", "`a || b`: a out of tail position, b inherits it; layout [a, CJump(T), b, Jump(end), T: True]: a True a skips b and yields True", "vm/src/compiler.rs::compile_primitive (|| block)"),
+        v("compiler", "FunctionEnv::new_stack_var", "a new local denotes the top slot of the static stack (the value just computed); no other name moves; no code emitted", "vm/src/compiler.rs::FunctionEnv::new_stack_var"),
+        v("compiler", "FunctionEnv::push_stack_var", "a value already on the run-time stack (pattern field, argument) gets the next slot and is accounted for", "vm/src/compiler.rs::FunctionEnv::push_stack_var"),
         v("compiler", "compile_::rec_value_fixup", "recursive value (`rec let ones = Cons 1 ones`): the placeholder becomes NewRecord/NewVariant with the constructor's own layout and field count, the constructor becomes CloseData on slot stack_start + i (the slot of the i-th binding of the group), nothing else in the function changes", "vm/src/compiler.rs::Compiler::compile_ (Expr::Let, Named::Recursive: the fix-up match)"),
         v("compiler", "ProgramCounter::new", "establishes index < len and last == Return", "vm/src/thread.rs::ProgramCounter::new"),
         v("compiler", "ProgramCounter::instruction", "the unchecked fetch is in bounds under the invariant", "vm/src/thread.rs::ProgramCounter::instruction"),
